@@ -50,6 +50,11 @@ class C03(Prop):
                 c.dup = 0.4                # a sub-formula occurs several times, possibly at different future depths
                 c.max_depth = max(c.max_depth, 2)
             f = lang.gen_formula(rng, c)
+            if want_future and not modular and rng.random() < 0.1 and lang.horizon(f) >= 1:
+                # a one-step delay above a look-ahead operand next to a sibling with its own look-ahead: the
+                # horizons of both must add up the same way in the horizon pass and in the rewriting pass
+                g = lang.gen_formula(rng, c)
+                f = lang.N(rng.choice(['and', 'or', 'since']), *rng.sample([lang.N(rng.choice(['prev', 's_prev']), f), g], 2))
             h = lang.horizon(f)
             if h <= 12 and (h >= 1 or not want_future):
                 break
@@ -162,10 +167,23 @@ class C03(Prop):
                     off = 'raised %s' % type(e).__name__
                 if isinstance(off, float) and ref.same(on[i], off, rel):
                     continue     # offline itself deviates from the reference: reported by C01, not here
+                known = None if case.get('ia') else findings.c03_attribution(f, data, n, i, on[i], rel)
+                if known and i + 1 < n and not v.viol:
+                    # explained by the open finding at this update: remember it, but keep looking for an update
+                    # that the defect model does NOT explain (another defect on the same formula)
+                    v.bad('delayed-value', '%s (h=%d) data=%s: update #%d returned %r, offline robustness of the '
+                          'original at sample %d on the %d-sample prefix is %r (reference %r)' % (
+                              text, h, data, i, on[i], i - h, i + 1, off, exp[i]), known)
+                    continue
+                if known:
+                    if not v.viol:
+                        v.bad('delayed-value', '%s (h=%d) data=%s: update #%d returned %r, reference %r' % (
+                            text, h, data, i, on[i], exp[i]), known)
+                    continue
+                v.viol = [x for x in v.viol if x[1] is None]
                 v.bad('delayed-value', '%s (h=%d) data=%s: update #%d returned %r, offline robustness of the '
                       'original at sample %d on the %d-sample prefix is %r (reference %r)' % (
-                          text, h, data, i, on[i], i - h, i + 1, off, exp[i]),
-                      None if case.get('ia') else findings.c03_attribution(f, data, n, i, on[i], rel))
+                          text, h, data, i, on[i], i - h, i + 1, off, exp[i]), None)
                 return v
         if not lang.has_future(f):
             try:
